@@ -79,8 +79,6 @@ def run(chk):
     recs = chk.generate(MODULE, "C01_gen.cfg", "gen")
     for v in (["std", "i64"] if quick else ["std", "verify", "i64", "i128s", "noasm"]):
         chk.replay(recs, v, "generated boundary records")
-    # the same records on a context whose SHA-256 compression function was replaced by a correct one (results must be identical)
-    chk.replay(recs, "std", "generated boundary records, replaced SHA-256 compression", env={"VH_CUSTOM_SHA": "1"})
     # T: driver traces from the implementation validated by TLC
     events = driver(chk, 150 if quick else 1500)
     chk.validate(events, MODULE, "C01_trace.cfg", "driver")
